@@ -213,6 +213,10 @@ func (s *Store) txnNode(tx WriteTxn, idx uint64, op *structs.TxnNodeOp) (structs
 			err = fmt.Errorf("failed to set node %q, index is stale", op.Node.Node)
 			break
 		}
+		if err != nil {
+			// Keep the write's own error; the lookup below would overwrite it.
+			break
+		}
 		entry, err = getNode()
 
 	case api.NodeDelete:
@@ -335,6 +339,10 @@ func (s *Store) txnCheck(tx WriteTxn, idx uint64, op *structs.TxnCheckOp) (struc
 		ok, err = s.ensureCheckCASTxn(tx, idx, entry)
 		if !ok && err == nil {
 			err = fmt.Errorf("failed to set check %q on node %q, index is stale", entry.CheckID, entry.Node)
+			break
+		}
+		if err != nil {
+			// Keep the write's own error; the lookup below would overwrite it.
 			break
 		}
 		_, entry, err = getNodeCheckTxn(tx, op.Check.Node, op.Check.CheckID, &op.Check.EnterpriseMeta, op.Check.PeerName)
